@@ -22,10 +22,28 @@ TR = "xdsl/transforms/__init__.py"
 def lexer_rules(idx: Index) -> list[tuple[str, int, str]]:
     mi = idx.module(AS)
     v = mi.assigns.get("_lexer_rules")
-    if not isinstance(v, ast.List):
+    elts = None
+    if isinstance(v, (ast.List, ast.Tuple)):
+        elts = list(v.elts)
+    elif isinstance(v, (ast.ListComp, ast.GeneratorExp)) or (isinstance(v, ast.Call) and unparse(v.func) in ("list", "tuple") and len(v.args) == 1 and isinstance(v.args[0], (ast.ListComp, ast.GeneratorExp))):
+        # [(re.compile(regex), kind) for kind, regex in (<literal table>)]: instantiate the element per table row
+        comp = v if isinstance(v, (ast.ListComp, ast.GeneratorExp)) else v.args[0]
+        g = comp.generators[0]
+        if isinstance(g.iter, ast.Name) and isinstance(mi.assigns.get(g.iter.id), (ast.Tuple, ast.List)):
+            g = ast.comprehension(target=g.target, iter=mi.assigns[g.iter.id], ifs=g.ifs, is_async=0)
+        if len(comp.generators) == 1 and not g.ifs and isinstance(g.iter, (ast.Tuple, ast.List)) and isinstance(g.target, ast.Tuple) and all(isinstance(t_, ast.Name) for t_ in g.target.elts):
+            from ..paths import subst
+
+            elts = []
+            for row in g.iter.elts:
+                if not (isinstance(row, (ast.Tuple, ast.List)) and len(row.elts) == len(g.target.elts)):
+                    raise AnalysisError("_lexer_rules table row shape changed")
+                env = {t_.id: x_ for t_, x_ in zip(g.target.elts, row.elts)}
+                elts.append(subst(comp.elt, env))
+    if elts is None:
         raise AnalysisError("_lexer_rules not found")
     out = []
-    for e in v.elts:
+    for e in elts:
         if not (isinstance(e, ast.Tuple) and len(e.elts) == 2):
             raise AnalysisError("_lexer_rules entry shape changed")
         pat, fl = compile_call(idx, mi, e.elts[0])
